@@ -68,3 +68,72 @@ package contracts
 //@   trusted
 //@   pure
 //@   ensures result <==> hasPrefix(s, prefix)
+
+//@ -- net/http, net/http/httputil ------------------------------------------------
+
+//@ -- canonical MIME header key (textproto.CanonicalMIMEHeaderKey), uninterpreted
+//@ pure func canon(s string) string
+//@ axiom [canon-idempotent] forall s string :: canon(canon(s)) == canon(s)
+//@ -- net.SplitHostPort(addr): success flag and host part, uninterpreted
+//@ pure func splitOK(addr string) bool
+//@ pure func hostOf(addr string) string
+//@ -- strings.Join(xs, ", "), uninterpreted
+//@ pure func joinComma(xs seq[string]) string
+
+//@ ghostfield http.Request.userAgent string
+//@ -- what the handler itself wrote to a ResponseWriter (status codes, body bytes)
+//@ ghostfield iface.statusCodes seq[int]
+//@ ghostfield iface.bodyWritten seq[byte]
+//@ -- requests handed to a ReverseProxy for forwarding
+//@ ghostfield httputil.ReverseProxy.served seq[*http.Request]
+
+//@ func http.(*Request).UserAgent :: r -> result
+//@   trusted
+//@   pure
+//@   requires r != nil
+//@   ensures result == r.userAgent
+
+//@ func http.ResponseWriter.WriteHeader :: w, code
+//@   trusted
+//@   assigns statusCodes(w)
+//@   ensures statusCodes(w) == old(statusCodes(w)) ++ seq[int]{code}
+
+//@ func http.ResponseWriter.Write :: w, p -> n, err
+//@   trusted
+//@   assigns bodyWritten(w)
+//@   ensures bodyWritten(w) == old(bodyWritten(w)) ++ p
+
+//@ func httputil.(*ReverseProxy).ServeHTTP :: rp, w, req
+//@   trusted
+//@   requires rp != nil
+//@   assigns rp.served
+//@   ensures rp.served == old(rp.served) ++ seq[*http.Request]{req}
+
+//@ func http.Header.Set :: h, key, value
+//@   trusted
+//@   requires [set-on-nil-map] h != nil
+//@   assigns mapOf(h)
+//@   ensures mapHas(h, canon(key)) && mapGet(h, canon(key)) == seq[string]{value}
+//@   ensures forall k string :: k != canon(key) ==> (mapHas(h, k) <==> old(mapHas(h, k))) && mapGet(h, k) == old(mapGet(h, k))
+
+//@ func http.Header.Del :: h, key
+//@   trusted
+//@   assigns mapOf(h)
+//@   ensures !mapHas(h, canon(key))
+//@   ensures forall k string :: k != canon(key) ==> (mapHas(h, k) <==> old(mapHas(h, k))) && mapGet(h, k) == old(mapGet(h, k))
+
+//@ func httputil.(*ProxyRequest).SetURL :: r, target
+//@   trusted
+//@   requires r != nil && r.Out != nil && target != nil
+//@   assigns r.Out.Host, r.Out.URL.all
+//@   ensures r.Out.Host == ""
+
+//@ func httputil.(*ProxyRequest).SetXForwarded :: r
+//@   trusted
+//@   requires r != nil && r.In != nil && r.Out != nil && r.Out.Header != nil
+//@   assigns mapOf(r.Out.Header)
+//@   ensures splitOK(r.In.RemoteAddr) ==> mapHas(r.Out.Header, "X-Forwarded-For") && mapGet(r.Out.Header, "X-Forwarded-For") == seq[string]{ite(old(mapHas(r.Out.Header, "X-Forwarded-For")) && len(old(mapGet(r.Out.Header, "X-Forwarded-For"))) > 0, joinComma(old(mapGet(r.Out.Header, "X-Forwarded-For"))) ++ ", " ++ hostOf(r.In.RemoteAddr), hostOf(r.In.RemoteAddr))}
+//@   ensures !splitOK(r.In.RemoteAddr) ==> !mapHas(r.Out.Header, "X-Forwarded-For")
+//@   ensures mapHas(r.Out.Header, "X-Forwarded-Host") && mapGet(r.Out.Header, "X-Forwarded-Host") == seq[string]{r.In.Host}
+//@   ensures mapHas(r.Out.Header, "X-Forwarded-Proto") && mapGet(r.Out.Header, "X-Forwarded-Proto") == seq[string]{ite(r.In.TLS == nil, "http", "https")}
+//@   ensures forall k string :: k != "X-Forwarded-For" && k != "X-Forwarded-Host" && k != "X-Forwarded-Proto" ==> (mapHas(r.Out.Header, k) <==> old(mapHas(r.Out.Header, k))) && mapGet(r.Out.Header, k) == old(mapGet(r.Out.Header, k))
